@@ -22,7 +22,8 @@ ASSUMPTIONS = ["multiprocessing transport (pickling, imap ordering) is exercised
 TRUSTED = ["RNG taps, `min` shadow, wrappers around _generate_maze_helper / generate_random_path used to cut the draw stream per item (the whole-run replay C03.dataset does not use the cuts: it gets the uncut streams)"]
 
 EP_OPTS = [dict(), dict(allowed_start=[]), dict(allowed_end=[], endpoints_not_equal=True), dict(deadend_start=True), dict(deadend_end=True), dict(deadend_start=True, deadend_end=True, endpoints_not_equal=True),
-           dict(endpoints_not_equal=True), "allowed_start", "allowed_end", "allowed_both", "allowed_start_deadend_end"]
+           dict(endpoints_not_equal=True), "allowed_start", "allowed_end", "allowed_both", "allowed_start_deadend_end",
+           "allowed_and_deadend_same_end", "allowed_and_deadend_same_end"]
 
 
 def make_cfg(rng, k, with_start=None):
@@ -49,6 +50,11 @@ def make_cfg(rng, k, with_start=None):
     elif ep == "allowed_end": ep = dict(allowed_end=rng.sample(cells, min(4, len(cells))), endpoints_not_equal=rng.random() < 0.5)
     elif ep == "allowed_both": ep = dict(allowed_start=rng.sample(cells, min(3, len(cells))), allowed_end=rng.sample(cells, min(3, len(cells))))
     elif ep == "allowed_start_deadend_end": ep = dict(allowed_start=rng.sample(cells, min(5, len(cells))), deadend_end=True)
+    elif ep == "allowed_and_deadend_same_end":
+        # an allow-list AND the dead-end flag for the SAME endpoint (both must hold), the list large enough to contain cells that are not dead ends
+        big = rng.sample(cells, max(1, (3 * len(cells)) // 4)) if rng.random() < 0.5 else list(cells)
+        ep = dict(allowed_start=big, deadend_start=True) if rng.random() < 0.5 else dict(allowed_end=big, deadend_end=True)
+        if rng.random() < 0.3: ep.update(allowed_end=list(cells), deadend_end=True, allowed_start=list(cells), deadend_start=True)
     cfg = MazeDatasetConfig(name=f"c03_{k}", grid_n=n, n_mazes=rng.randint(1, 8), maze_ctor=GENERATORS_MAP["gen_" + gen],
                             maze_ctor_kwargs=kw, endpoint_kwargs=ep, seed=rng.randint(0, 2**20))
     return cfg, dict(gen=gen, rows=n, cols=n, kwargs=kw), ep
